@@ -80,6 +80,20 @@ type Scenario struct {
 	Readers  int         `json:"readers,omitempty"` // extra snapshot readers (C05)
 	DryRun   bool        `json:"-"`
 	Keyspace bool        `json:"keyspace,omitempty"`
+	Reads    *ReadPlan   `json:"reads,omitempty"`
+}
+
+// ReadPlan drives the snapshot readers of C05: the concrete reads are drawn at run
+// time from Seed, because the interesting snapshot timestamps (commit / start
+// timestamps of the writers, +-1) only exist then.
+type ReadPlan struct {
+	Seed      int64 `json:"seed"`
+	Early     int   `json:"early"` // reads racing the writers
+	Late      int   `json:"late"`  // reads after the writers ended (locks of crashed writers still there)
+	Final     int   `json:"final"` // reads after recovery
+	Batch     int   `json:"batch"` // scan batch size
+	KeyOnly   bool  `json:"key_only,omitempty"`
+	Unbounded bool  `json:"unbounded_reverse,omitempty"` // include reverse scans from the end of the key space (known finding F1)
 }
 
 var keyPool = []string{"a", "b", "c", "d", "e", "f"}
@@ -114,6 +128,8 @@ type genOpts struct {
 	lockRate     float64
 	readOnlyPct  float64
 	boundedRiter bool // never generate a reverse scan without upper bound (known finding F1)
+	staging      bool // generate staging / release / cleanup / checkpoint / revert steps (C07)
+	maxOps       int
 }
 
 // genTxn generates one transaction program over the key pool.
@@ -125,10 +141,41 @@ func genTxn(r *rand.Rand, id int, clients int, o genOpts, keys []string) TxnProg
 		p.OnePC = r.Float64() < o.onePCRate
 	}
 	nops := 1 + r.Intn(7)
+	if o.maxOps > 0 {
+		nops = 3 + r.Intn(o.maxOps-2)
+	}
 	written := map[string]bool{}
+	depth := 0
+	hasCP := false
 	for i := 0; i < nops; i++ {
 		var op Op
 		x := r.Float64()
+		if o.staging && r.Float64() < 0.22 {
+			// savepoint steps; while a savepoint is open only plain sets/deletes and reads are generated
+			switch {
+			case depth > 0 && r.Intn(2) == 0:
+				p.Ops = append(p.Ops, Op{Kind: pick(r, []string{"release", "cleanup", "cleanup"})})
+				depth--
+			case depth == 0 && !hasCP && r.Intn(3) == 0:
+				p.Ops = append(p.Ops, Op{Kind: "checkpoint"})
+				hasCP = true
+			case depth == 0 && hasCP && r.Intn(2) == 0:
+				p.Ops = append(p.Ops, Op{Kind: "revert"})
+				hasCP = false
+			case depth < 3:
+				p.Ops = append(p.Ops, Op{Kind: "stage"})
+				depth++
+			}
+			continue
+		}
+		if depth > 0 || hasCP {
+			if x >= 0.70 && x < 0.78 {
+				x = 0.5 // insert -> set
+			}
+			if x >= 0.94 {
+				x = 0.1 // lock -> get
+			}
+		}
 		switch {
 		case x < 0.22:
 			op = Op{Kind: "get", Keys: []string{pick(r, keys)}}
@@ -190,7 +237,7 @@ func genTxn(r *rand.Rand, id int, clients int, o genOpts, keys []string) TxnProg
 		}
 		// pessimistic transactions lock what they write, most of the time: before the
 		// write, or (inserts) after it, so that the lock request carries the existence check.
-		if p.Pessimistic && (op.Kind == "set" || op.Kind == "delete" || op.Kind == "insert") && r.Float64() < 0.92 {
+		if depth == 0 && !hasCP && p.Pessimistic && (op.Kind == "set" || op.Kind == "delete" || op.Kind == "insert") && r.Float64() < 0.92 {
 			lk := Op{Kind: "lock", Keys: []string{op.Keys[0]}, RetVals: r.Intn(3) == 0}
 			if r.Intn(6) == 0 {
 				lk.WaitMs = 100 + r.Intn(400)
@@ -202,6 +249,9 @@ func genTxn(r *rand.Rand, id int, clients int, o genOpts, keys []string) TxnProg
 			p.Ops = append(p.Ops, lk)
 		}
 		p.Ops = append(p.Ops, op)
+	}
+	for ; depth > 0; depth-- {
+		p.Ops = append(p.Ops, Op{Kind: pick(r, []string{"release", "cleanup"})})
 	}
 	p.End = "commit"
 	if r.Float64() < 0.12 {
